@@ -122,9 +122,145 @@ Definition ambient_helpers : list string := [
   "types.RandomInt"; "types.RandomDec"; "types.GenAndDeliverTx"; "types.GenAndDeliverTxWithFees";
   "types.ShuffleSimAccounts"; "liquidity/amm.RandomTick"; "liquidity/amm.TickPrecision.RandomTick"]%string.
 Definition is_helper (n : string) : bool := existsb (String.eqb n) ambient_helpers.
+Definition is_classic_kind (k : string) : bool :=
+  String.eqb k "random" || String.eqb k "clock" || String.eqb k "environment".
+(* goroutine / select rows are never accepted; randomness, wall clock and environment only in a
+   registered helper all of whose transitive callers are registered helpers *)
+Definition classic_row_ok (r : ambient_site) : bool :=
+  is_classic_kind (am_kind r) && is_helper (am_func r) && forallb is_helper (am_callers r).
+
+(* ---- process-local mutable state (rows emitted by tools/goextract/emit_maprange_state.go).
+   The state of the chain is the multistore: it is branched for CheckTx / simulation / every
+   transaction and rolled back on failure.  Memory a keeper keeps beside it is neither rolled back
+   nor shared between processes, so a result that depends on it depends on the history of the
+   PROCESS.  Kinds:
+     procstate               a write (assign / append / incdec / delete / Store ... / in-place Dec or
+                             big.Int operation) through a field of a state-machine struct or a
+                             package-level variable, outside init and outside the object a New*
+                             function is building
+     procstate-ext           a type of another module held by a field of a state-machine struct
+     procstate-local         a type with sdk.Context methods whose values the translator found only
+                             in local variables / parameters / results
+     procstate-unrecognised  an alias of a map / slice / channel / sync field the scan cannot follow ---- *)
+
+(* types of other modules that state-machine structs hold.  All are objects of the SDK / IBC /
+   wasmd whose chain state is in the multistore (keepers, the params subspace), or the immutable
+   handles of the multistore itself (store keys), the codec, BaseApp (owns the multistore and
+   does the branching) and the module manager (filled in app.New).  Their determinism is the
+   SDK's, not this repository's: trusted base.  A type that is not here (sync.Map, an LRU cache,
+   bytes.Buffer, big.Int ...) fails. *)
+Definition procstate_ext_ok : list string := [
+  "github.com/CosmWasm/wasmd/x/wasm/keeper.Keeper";
+  "github.com/CosmWasm/wasmd/x/wasm/keeper.PermissionedKeeper";
+  "github.com/cosmos/cosmos-sdk/baseapp.BaseApp";
+  "github.com/cosmos/cosmos-sdk/codec.LegacyAmino";
+  "github.com/cosmos/cosmos-sdk/store/types.KVStoreKey";
+  "github.com/cosmos/cosmos-sdk/store/types.MemoryStoreKey";
+  "github.com/cosmos/cosmos-sdk/store/types.TransientStoreKey";
+  "github.com/cosmos/cosmos-sdk/types/module.Manager";
+  "github.com/cosmos/cosmos-sdk/x/auth/keeper.AccountKeeper";
+  "github.com/cosmos/cosmos-sdk/x/authz/keeper.Keeper";
+  "github.com/cosmos/cosmos-sdk/x/bank/keeper.BaseKeeper";
+  "github.com/cosmos/cosmos-sdk/x/capability/keeper.Keeper";
+  "github.com/cosmos/cosmos-sdk/x/capability/keeper.ScopedKeeper";
+  "github.com/cosmos/cosmos-sdk/x/consensus/keeper.Keeper";
+  "github.com/cosmos/cosmos-sdk/x/crisis/keeper.Keeper";
+  "github.com/cosmos/cosmos-sdk/x/distribution/keeper.Keeper";
+  "github.com/cosmos/cosmos-sdk/x/evidence/keeper.Keeper";
+  "github.com/cosmos/cosmos-sdk/x/feegrant/keeper.Keeper";
+  "github.com/cosmos/cosmos-sdk/x/gov/keeper.Keeper";
+  "github.com/cosmos/cosmos-sdk/x/mint/keeper.Keeper";
+  "github.com/cosmos/cosmos-sdk/x/params/keeper.Keeper";
+  "github.com/cosmos/cosmos-sdk/x/params/types.Subspace";
+  "github.com/cosmos/cosmos-sdk/x/slashing/keeper.Keeper";
+  "github.com/cosmos/cosmos-sdk/x/staking/keeper.Keeper";
+  "github.com/cosmos/cosmos-sdk/x/upgrade/keeper.Keeper";
+  "github.com/cosmos/ibc-apps/middleware/packet-forward-middleware/v7/packetforward/keeper.Keeper";
+  "github.com/cosmos/ibc-apps/modules/async-icq/v7/keeper.Keeper";
+  "github.com/cosmos/ibc-apps/modules/ibc-hooks/v7.ICS4Middleware";
+  "github.com/cosmos/ibc-apps/modules/ibc-hooks/v7.WasmHooks";
+  "github.com/cosmos/ibc-apps/modules/ibc-hooks/v7/keeper.Keeper";
+  "github.com/cosmos/ibc-go/v7/modules/apps/27-interchain-accounts/host/keeper.Keeper";
+  "github.com/cosmos/ibc-go/v7/modules/apps/29-fee/keeper.Keeper";
+  "github.com/cosmos/ibc-go/v7/modules/apps/transfer/keeper.Keeper";
+  "github.com/cosmos/ibc-go/v7/modules/core/keeper.Keeper"]%string.
+
+(* types with sdk.Context methods that never leave the call stack (the translator checks: no field,
+   package variable or named type of the repository holds one, none is converted to an interface,
+   passed outside the repository, stored, captured by a function literal or sent):
+     x/asset/keeper.Migrator                    built by NewMigrator, only used in tests today
+     x/liquidity/types.BulkSendCoinsOperation   the per-call batch of bank sends: made by
+        NewBulkSendCoinsOperation inside the keeper function that uses it, filled (QueueSendCoins),
+        run (Run) and dropped before that function returns; it dies with the call, so its fields
+        are not process state *)
+Definition procstate_local_types : list string := [
+  "x/asset/keeper.Migrator"; "x/liquidity/types.BulkSendCoinsOperation"]%string.
+
+(* a registered site: function ("" = any function), the exact text of the row, and whether all
+   transitive callers must be wiring / helper functions (a field set once while the application
+   is put together, a helper nothing refers to) *)
+Record site_entry := mkEntry { se_func : string; se_what : string; se_callers_wiring : bool }.
+Definition procstate_wiring : list string := ["app.New"]%string.
+Definition is_wiring (n : string) : bool := existsb (String.eqb n) procstate_wiring || is_helper n.
+Definition entry_matches (r : ambient_site) (e : site_entry) : bool :=
+  (String.eqb (se_func e) "" || String.eqb (se_func e) (am_func r)) && String.eqb (se_what e) (am_what r) &&
+  (negb (se_callers_wiring e) || forallb is_wiring (am_callers r)).
+Definition registered (reg : list site_entry) (r : ambient_site) : bool := existsb (entry_matches r) reg.
+
+(* the procstate sites of the unchanged tree, each read and found harmless:
+   - every module's types.RegisterInterfaces hands the address of the GENERATED gRPC service
+     descriptor (_Msg_serviceDesc, tx.pb.go) to the SDK's msgservice.RegisterMsgServiceDesc, which
+     reads the method list to register the request types; nothing writes through the pointer;
+   - app.ModuleBasics is a module.BasicManager (a named map of another module); the four methods
+     called on it (RegisterGRPCGatewayRoutes, RegisterLegacyAminoCodec, RegisterInterfaces,
+     DefaultGenesis) range over the map and call the per-module function; none inserts or deletes.
+     The map is filled by its composite literal at package initialisation only. *)
+Definition procstate_registry : list site_entry := [
+  mkEntry "" "msgservice.RegisterMsgServiceDesc of the address of a package variable" false;
+  mkEntry "app.App.RegisterAPIRoutes"
+    "external method github.com/cosmos/cosmos-sdk/types/module.BasicManager.RegisterGRPCGatewayRoutes on package variable app.ModuleBasics" false;
+  mkEntry "app.MakeEncodingConfig"
+    "external method github.com/cosmos/cosmos-sdk/types/module.BasicManager.RegisterLegacyAminoCodec on package variable app.ModuleBasics" false;
+  mkEntry "app.MakeEncodingConfig"
+    "external method github.com/cosmos/cosmos-sdk/types/module.BasicManager.RegisterInterfaces on package variable app.ModuleBasics" false;
+  mkEntry "app.NewDefaultGenesisState"
+    "external method github.com/cosmos/cosmos-sdk/types/module.BasicManager.DefaultGenesis on package variable app.ModuleBasics" false]%string.
+
+Definition is_procstate_kind (k : string) : bool :=
+  String.eqb k "procstate" || String.eqb k "procstate-ext" || String.eqb k "procstate-local" || String.eqb k "procstate-unrecognised".
+Definition procstate_row_ok_with (reg : list site_entry) (r : ambient_site) : bool :=
+  let k := am_kind r in
+  if String.eqb k "procstate" then registered reg r
+  else if String.eqb k "procstate-ext" then existsb (String.eqb (am_what r)) procstate_ext_ok
+  else if String.eqb k "procstate-local" then existsb (String.eqb (am_func r)) procstate_local_types
+  else false.   (* procstate-unrecognised: never *)
+Definition procstate_row_ok := procstate_row_ok_with procstate_registry.
+
+(* ---- local time zone: a Time made by time.Unix / UnixMilli / UnixMicro / Parse / ParseInLocation /
+   Date(non-UTC) on which a zone-dependent method is called, or which leaves the function, before
+   .UTC() / .In(time.UTC); time.Local, Time.Local(), time.LoadLocation.  The one site of the unchanged
+   tree: types.ParseTime (types/utils.go:108) returns time.Parse(time.RFC3339, s) as it is; a test
+   helper - no non-test code refers to it (the row's caller list must consist of wiring / helper
+   functions; it is empty today). ---- *)
+Definition localtime_registry : list site_entry := [
+  mkEntry "types.ParseTime" "time.Parse value returned before a UTC conversion" true]%string.
+Definition localtime_row_ok_with (reg : list site_entry) (r : ambient_site) : bool :=
+  String.eqb (am_kind r) "localtime" && registered reg r.
+Definition localtime_row_ok := localtime_row_ok_with localtime_registry.
+
+(* a row of a kind this file does not know fails *)
 Definition ambient_row_ok (r : ambient_site) : bool :=
-  is_helper (am_func r) && forallb is_helper (am_callers r) &&
-  negb (String.eqb (am_kind r) "goroutine") && negb (String.eqb (am_kind r) "select").
+  let k := am_kind r in
+  if is_procstate_kind k then procstate_row_ok r
+  else if String.eqb k "localtime" then localtime_row_ok r
+  else classic_row_ok r.
+
+(* nothing registered is stale: every entry still matches a row of the table *)
+Definition registries_live (t : list ambient_site) : bool :=
+  forallb (fun e => existsb (fun r => String.eqb (am_kind r) "procstate" && entry_matches r e) t) procstate_registry &&
+  forallb (fun e => existsb (fun r => String.eqb (am_kind r) "localtime" && entry_matches r e) t) localtime_registry &&
+  forallb (fun n => existsb (fun r => String.eqb (am_kind r) "procstate-ext" && String.eqb (am_what r) n) t) procstate_ext_ok &&
+  forallb (fun n => existsb (fun r => String.eqb (am_kind r) "procstate-local" && String.eqb (am_func r) n) t) procstate_local_types.
 
 (* ---- the predicate evaluated on the harness observations: all replays of one block agree ---- *)
 Fixpoint all_equal (l : list string) : bool :=
